@@ -142,17 +142,18 @@ Theorem bearer_empty_refuted : header_roundtrip true [] = bytes_of_string "Beare
 Proof. vm_compute. split; [reflexivity|discriminate]. Qed.
 Print Assumptions bearer_empty_refuted.
 
-(* Basic: user names without ':' round-trip with any password *)
-Theorem basic_roundtrip_partial u pw :
-  (forall b, In b u -> N.eqb b 58 = false) -> basic_roundtrip u pw = (u, pw).
-Proof. exact (basic_roundtrip_safe u pw). Qed.
-Print Assumptions basic_roundtrip_partial.
+(* Basic: the client refuses exactly the user names holding a ':' (RFC 7617); every other
+   user name / password pair reaches the callback exactly. Nothing is ever delivered altered. *)
+Theorem basic_roundtrip u pw :
+  (has_colon u = true /\ basic_send u pw = None) \/ (has_colon u = false /\ basic_send u pw = Some (u, pw)).
+Proof. exact (basic_send_spec u pw). Qed.
+Print Assumptions basic_roundtrip.
 
-(* finding: a ':' in the user name moves the rest of it into the password *)
-Theorem basic_colon_refuted :
-  basic_roundtrip (bytes_of_string "a:b") (bytes_of_string "p") = (bytes_of_string "a", bytes_of_string "b:p").
-Proof. vm_compute. reflexivity. Qed.
-Print Assumptions basic_colon_refuted.
+Theorem basic_credentials_never_altered L p :
+  (has_colon (p_user p) = true /\ transport L p = None) \/
+  (has_colon (p_user p) = false /\ exists p', transport L p = Some p' /\ p_user p' = p_user p /\ p_pass p' = p_pass p).
+Proof. exact (transport_basic L p). Qed.
+Print Assumptions basic_credentials_never_altered.
 
 (* credentials in the query string or the body are not touched *)
 Theorem query_body_roundtrip c : arrive LQuery c = c /\ arrive LBody c = c.
@@ -188,8 +189,9 @@ Print Assumptions scheme_in_header_iff_stripped.
 (* End to end: inside the hypotheses above, what the callbacks are shown on the server is
    computed from exactly the credentials the client was given. *)
 Theorem credentials_arrive_partial ctx err (auth : kind -> sc -> list bytes -> ctx -> ctx * option err) L p reqs c :
-  wire_safe L p -> run ctx err auth (transport L p) reqs c = run ctx err auth p reqs c.
-Proof. intro H. rewrite (transport_safe L p H). reflexivity. Qed.
+  wire_safe L p ->
+  exists p', transport L p = Some p' /\ run ctx err auth p' reqs c = run ctx err auth p reqs c.
+Proof. intro H. exists p. split; [exact (transport_safe L p H)|reflexivity]. Qed.
 Print Assumptions credentials_arrive_partial.
 
 (* non-vacuity: two alternative requirements, the first rejected by its second scheme,
